@@ -154,13 +154,15 @@ theorem csObserve_facts (ro : Rollout) (wl : WL) (s : Sub) (hs : ro.sub = some s
 theorem reconcile_finalising_eq (w : World) (wl : WL) (ns : Rollout) (w' : World) (d e : Bool) (ws : List String)
     (hhf : handleFinalizer w.ro = (w.ro, false, [])) (hcs : calculateStatus w.ro (some wl) = some ns)
     (hph : w.ro.phase = .progressing) (hr : w.ro.reason = .finalising) (hwl : w.wl = some wl) (hc : wl.consistent = true)
-    (hfz : finalise w ns (some wl) .success true = some (w', d, e, ws)) :
+    (hfz : finalise w ns (some wl) .success true = some (w', d, e, ws))
+    (hdel : w.ro.deleting = false) (hdis : w.ro.disabled = false) :
     reconcile w =
       if e then .val { w := { w' with ro := w.ro }, roGone := false, requeue := false, err := true, writes := [] ++ ws }
       else if d then .val { w := { w' with ro := { w'.ro with reason := .completed, succeeded := some true } }, roGone := false,
                             requeue := false, err := false, writes := [] ++ ws }
       else .val { w := w', roGone := false, requeue := true, err := false, writes := [] ++ ws } := by
-  unfold reconcile
+  rw [reconcile_eq_core_of_alive w hdel hdis]
+  unfold reconcileCore
   dsimp only
   rw [hhf]
   dsimp only
@@ -199,7 +201,7 @@ theorem finalising_step (w : World) (wl : WL) (s : Sub)
       rw [hs1]
       dsimp only
       rw [if_neg (by simp [hc]), hd]
-    have hrec := reconcile_finalising_eq w wl ns _ d e _ hhf hcs hph hr hwl hc hfz
+    have hrec := reconcile_finalising_eq w wl ns _ d e _ hhf hcs hph hr hwl hc hfz hg.notDeleting hg.enabled
     -- the invariant across the round
     have hinv0 : finInv .success ns s1.finStep w.br w.net = true := by
       rw [hs1f, finInv_congr .success w.ro ns s.finStep w.br w.net hsame.2.2.1 hsame.2.1 hsame.2.2.2.2.2.1]
